@@ -85,6 +85,55 @@ def _run_one(args):
     return (m_name, "missed", "")
 
 
+def _run_reformatted(args):
+    """A behaviour-preserving variant of the whole package: every hand-written module re-printed by ast.unparse (comments gone,
+    layout, parenthesisation and quoting normalised).  The check must say exactly what it says about the tree itself."""
+    pid, repo, baseline_keys = args
+    import ast
+    import importlib
+    import sys
+
+    here = os.path.dirname(os.path.abspath(__file__))
+    if os.path.dirname(here) not in sys.path:
+        sys.path.insert(0, os.path.dirname(here))
+    from fdg_static.core import AnalysisError, GENERATED
+    from fdg_static.engine import Engine
+    from fdg_static.report import Check
+
+    overlay = {}
+    base = os.path.join(repo, "src", "fandango")
+    for root, _dirs, files in os.walk(base):
+        for f in files:
+            if not f.endswith(".py"):
+                continue
+            path = os.path.join(root, f)
+            rel = os.path.relpath(path, repo)
+            modname = rel[len("src/"):-3].replace(os.sep, ".")
+            if modname in GENERATED:
+                continue
+            try:
+                with open(path, encoding="utf-8") as fh:
+                    overlay[rel] = ast.unparse(ast.parse(fh.read())) + "\n"
+            except SyntaxError:
+                continue
+    mod = importlib.import_module(f"fdg_static.rules.{pid.lower()}")
+    try:
+        eng = Engine(repo, overlay=overlay)
+        chk = Check(pid, "thorough")
+        mod.run(chk, eng)
+    except AnalysisError as e:
+        return ("twin-reformatted-package", "analysis-error", str(e)[:200])
+    except Exception:
+        return ("twin-reformatted-package", "internal-error", traceback.format_exc()[-300:])
+    new_v = [v for v in chk.violations if v.key not in baseline_keys]
+    gone = [k for k in baseline_keys if k not in {v.key for v in chk.violations}]
+    under = [rid for rid, fl in chk.floors.items() if chk.count(rid) < fl]
+    if new_v or under or gone:
+        return ("twin-reformatted-package", "twin-alarm", "; ".join(f"{v.rule}: {v.construct[:80]}" for v in new_v[:3]) + (" floors:" + ",".join(under) if under else "") +
+                (" vanished:" + ",".join(gone) if gone else ""))
+    return ("twin-reformatted-package", "twin-silent", f"{len(overlay)} modules re-printed")
+
+
 def run_mutants(chk, mod, repo: str, jobs: int = 16) -> None:
     muts = list(getattr(mod, "MUTANTS", [])) + list(getattr(mod, "TWINS", []))
     if not muts:
@@ -95,8 +144,10 @@ def run_mutants(chk, mod, repo: str, jobs: int = 16) -> None:
     with cf.ProcessPoolExecutor(max_workers=max(1, min(jobs, len(tasks)))) as ex:
         for r in ex.map(_run_one, tasks):
             results.append(r)
+    results.append(_run_reformatted((chk.pid, repo, baseline)))
     planted = [m for m in muts if m.expect is not None]
-    twins = [m for m in muts if m.expect is None]
+    twins = [m for m in muts if m.expect is None] + [M("twin-reformatted-package", "src/fandango/**", "", "", None)]
+    muts = muts + [twins[-1]]
     by = {r[0]: r for r in results}
     det = [n for n, s, _ in results if s == "detected"]
     other = [n for n, s, _ in results if s == "detected-other-rule"]
